@@ -10,6 +10,8 @@
      oall / oant:x / opart   the same in the exact order the C++ iterators produce
      ch:k     partition(k): one [..] per returned range, exact order
      lb:x:y   lower_bound((x,y)) .. end(), exact order
+     sc:x:y   NOT the model: the executable specification closure_b on the pairs the history
+              has inserted so far (spec_pairs) -> t/f; must equal c:x:y
    stdout: one line per history, the answers in order separated by " ; ". *)
 open Eqrel_model
 open Common_io
@@ -57,15 +59,37 @@ let is_query = function
   | OInsert _ | OInsertAll _ | OExtend _ -> false
   | _ -> true
 
+type item = Model of op * bool | Spec of rel_id * z * z
+
+let parse_item tok : item option =
+  let f = split_on ':' tok in
+  match List.hd f with
+  | "sc" -> Some (Spec (RA, pz (List.nth f 1), pz (List.nth f 2)))
+  | "scB" -> Some (Spec (RB, pz (List.nth f 1), pz (List.nth f 2)))
+  | _ -> (match parse tok with Some (o, s) -> Some (Model (o, s)) | None -> None)
+
 let () = read_lines (fun l ->
   let toks = List.filter (fun s -> s <> "") (split_on ' ' l) in
-  let ops = List.filter_map parse toks in
-  let (_, answers) = run (List.map fst ops) in
-  let fmts = List.filter_map (fun (o, s) -> if is_query o then Some s else None) ops in
+  let items = List.filter_map parse_item toks in
+  let ops = List.filter_map (function Model (o, _) -> Some o | Spec _ -> None) items in
+  let (_, answers) = run ops in
   let show a sorted = match a with
     | ABool b -> if b then "t" else "f"
     | ASize n -> BZ.to_string (z_of_n n)
     | APairs p -> pairs sorted p
     | AClasses c -> classes sorted c
     | AChunks c -> String.concat "" (List.map (fun p -> "[" ^ pairs false p ^ "]") c) in
-  print_endline (String.concat " ; " (List.map2 show answers fmts)))
+  (* walk the items: model queries consume the next answer, spec queries look at the prefix *)
+  let rec go items prefix answers acc = match items with
+    | [] -> List.rev acc
+    | Model (o, sorted) :: r ->
+      if is_query o then
+        (match answers with
+         | a :: ar -> go r (o :: prefix) ar (show a sorted :: acc)
+         | [] -> go r (o :: prefix) [] ("?" :: acc))
+      else go r (o :: prefix) answers acc
+    | Spec (rid, x, y) :: r ->
+      let (pa, pb) = spec_pairs (List.rev prefix) in
+      let ps = (match rid with RA -> pa | RB -> pb) in
+      go r prefix answers ((if closure_b ps x y then "t" else "f") :: acc) in
+  print_endline (String.concat " ; " (go items [] answers [])))
